@@ -222,19 +222,18 @@ theorem packFS_origin {h h' : History} {T : Tid} {gc : Bool} (hp : packFS h T gc
   obtain ⟨g, post', hg, e1, e2⟩ := packFS_ok_shape hp
   rw [e1] at ht'
   rcases List.mem_append.1 ht' with hin | hin
-  · obtain ⟨t, ht, etid, _, erecs⟩ := copyPre_tid hin
-    refine ⟨t, ?_, etid.symm, ?_⟩
+  · obtain ⟨t, ht, hct⟩ := copyPre_mem hin
+    refine ⟨t, ?_, (copyPreTxn_some hct).1.symm, ?_⟩
     · rw [← pre_append_post h T]; exact List.mem_append_left _ ht
-    · unfold Txn.recOf at hr'
-      rw [erecs, find?_oid_map_packRec, find?_filter_oid (g.isReachable t.tid)] at hr'
+    · rw [copyPreTxn_recOf hct] at hr'
       split at hr'
-      · cases hx : t.recs.find? (fun r => r.oid == o) with
+      · cases hx : t.recOf o with
         | none => rw [hx] at hr'; simp at hr'
         | some r =>
           rw [hx] at hr'
           simp only [Option.map_some, Option.some.injEq] at hr'
-          exact ⟨r, hx, by rw [← hr']; rfl⟩
-      · simp at hr'
+          exact ⟨r, rfl, by rw [← hr']; rfl⟩
+      · cases hr'
   · obtain ⟨t, ht, ec⟩ := mem_of_map_eq e2.symm hin
     refine ⟨t, ?_, ?_, ?_⟩
     · rw [← pre_append_post h T]; exact List.mem_append_right _ ht
